@@ -15,7 +15,8 @@ EXTENDS RuxPattern, RuxPath, TLC
 
 \* value alphabets per class (token sequences; SP, EACUTE, PCT, QM, HASH are single characters ' ', 'e-acute', '%', '?', '#')
 ValuesOf(k) ==
-  CASE k = "any"   -> { <<"a">>, <<"a", "SP", "b">>, <<"EACUTE">>, <<"PCT", "2", "F">>, <<"a", "QM", "b">>, <<"HASH", "1">>, <<"a", ".", "b">>, <<"1">> }
+  CASE k = "any"   -> { <<"a">>, <<"a", "SP", "b">>, <<"EACUTE">>, <<"PCT", "2", "F">>, <<"a", "QM", "b">>, <<"HASH", "1">>, <<"a", ".", "b">>, <<"1">>,
+                       <<"{", "y", "}">>, <<"{", "x", "}">> }     \* a value that reads like the placeholder of another variable
     [] k = "dig"   -> { <<"7">>, <<"4", "2">>, <<"0">> }
     [] k = "num"   -> { <<"5">>, <<"1", "0">> }
     [] k = "word"  -> { <<"a", "_", "1">>, <<"x">> }
